@@ -23,6 +23,8 @@ def pool():
         ("0[0-7]*", dict(head=R.cat(R.lit('0'), R.star(('set', frozenset(range(48, 56))))))), ("0", dict(head=R.lit('0'))),
         ("a{2}", dict(head=R.rep(A, 2, 2))), ("aa", dict(head=R.cat(A, A))), ("a{1,2}", dict(head=R.rep(A, 1, 2))), ("[^a]", dict(head=('set', frozenset(R.ALL - {97})))),
         ("ba", dict(head=R.cat(B, A))), ("b+a?", dict(head=R.cat(R.plus(B), R.opt(A)))),
+        # fixed head, variable trail: still an ordinary (non-REJECT) rule, whatever the rule before it looked like (round-7 seed C17-r7m3)
+        ("a/b+", dict(head=A, trail=R.plus(B))),
     ]
     return P
 
@@ -94,6 +96,9 @@ def cannot_match_job(args):
             spec = spec.replace("{ }", "{ int reject = 0, Reject = 1; (void)reject; (void)Reject; }")
         open(os.path.join(wd, "w.l"), "w").write(spec)
         rc, out, err = H.run_flex(flex, list(extra_flags) + ["-o", "w.c", "w.l"], wd)
+        # "trailing context made variable due to preceding '|' action": the whole scanner then runs on the REJECT machinery, where
+        # flex promises only to give no false warning (as under --reject)
+        made_variable = "trailing context made variable" in err
         first_rule_line = min(pack.line2rule) if pack.line2rule else 0
         shift = 0
         # line numbers: emit_spec's numbering minus the removed header lines
@@ -112,12 +117,12 @@ def cannot_match_job(args):
                 pass
             else:
                 other.append(msg)
-        res = {"rc": rc, "tag": tag, "warned": sorted(warned), "other": other, "stderr": err[-1500:], "expected": {}, "spec": spec,
+        res = {"rc": rc, "tag": tag, "reject_mode": made_variable, "warned": sorted(warned), "other": other, "stderr": err[-1500:], "expected": {}, "spec": spec,
                "scanner": open(os.path.join(wd, "w.c"), "rb").read() if rc == 0 and os.path.exists(os.path.join(wd, "w.c")) else b""}
         nr = pack.numbered_rules()
         exp_unmatch = set()
         for gi, g in enumerate(groups_spec):
-            u = useful_rules(pack, gi, g, all_accepts="--reject" in extra_flags)
+            u = useful_rules(pack, gi, g, all_accepts="--reject" in extra_flags or made_variable)
             for n, gj, r in nr:
                 if gj == gi and n not in u:
                     exp_unmatch.add(n)
@@ -177,6 +182,23 @@ def make_groups(quick):
                 n += 1
                 rules = [H.Rule(scs=[name], **P[p_][1]), H.Rule(scs=[name], action="|", **P[i][1]), H.Rule(scs=[name], **P[k][1])]
                 gs.append(H.Group([(name, True)], rules, name, b"ab", 0, label="%s ; %s | %s" % (P[p_][0], P[i][0], P[k][0])))
+    # ... and the other way round: an ordinary '$' / trailing-context rule right after a '|' rule (reported by a round-7 sub-agent
+    # about the unmodified tree: the warning named the '|' rule's line)
+    for p_ in (0, 2, 15, 16):
+        for i in (15, 16, 17):
+            for k in (0, 15, 16):
+                name = "W%d" % n
+                n += 1
+                rules = [H.Rule(scs=[name], action="|", **P[p_][1]), H.Rule(scs=[name], **P[i][1]), H.Rule(scs=[name], **P[k][1])]
+                gs.append(H.Group([(name, True)], rules, name, b"ab", 0, label="%s | %s ; %s" % (P[p_][0], P[i][0], P[k][0])))
+    # a rule that matches nothing at all (so it is unmatchable on the REJECT machinery too, which the preceding '|' forces), after a '|' rule
+    EMPTY = dict(head=('set', frozenset()), eol=True, text="[a]{-}[a]$")
+    for p_ in (0, 2, 3, 15):
+        for k in (0, 1):
+            name = "W%d" % n
+            n += 1
+            rules = [H.Rule(scs=[name], action="|", **P[p_][1]), H.Rule(scs=[name], **EMPTY), H.Rule(scs=[name], **P[k][1])]
+            gs.append(H.Group([(name, True)], rules, name, b"ab", 0, label="%s | [a]{-}[a]$ ; %s" % (P[p_][0], P[k][0])))
     return gs
 
 
@@ -207,6 +229,8 @@ def run(tier):
         nwarn += len(got)
         for n in sorted(exp ^ got):
             kind = "missing-warning" if n in exp else "false-warning"
+            if kind == "missing-warning" and res.get("reject_mode"):
+                continue          # on the REJECT machinery only "no false warning" is promised
             ck.violation("C17:%s:%s#%s" % (kind, res["labels"][str(n)] if str(n) in res["labels"] else res["labels"].get(n), res["texts"].get(n, res["texts"].get(str(n)))),
                          "rule set [%s]: rule '%s' %s" % (res["labels"].get(n), res["texts"].get(n),
                                                           "can never be selected but flex does not warn" if n in exp else
